@@ -541,6 +541,9 @@ func (p *Printer) rightParen(pos Pos) {
 	}
 	p.w.WriteByte(')')
 	p.wantSpace = spaceRequired
+	// A terminator written for the last statement inside the parentheses
+	// does not terminate the statement holding them.
+	p.wroteSemi = false
 }
 
 // closingParen prints a closing parenthesis at closePos, separating it from a
@@ -569,6 +572,9 @@ func (p *Printer) semiRsrv(s string, pos Pos) {
 	}
 	p.w.WriteString(s)
 	p.wantSpace = spaceRequired
+	// A terminator written for the last statement before the reserved word
+	// does not terminate the statement holding the compound command.
+	p.wroteSemi = false
 }
 
 func (p *Printer) flushComments() {
